@@ -6,13 +6,22 @@
        `V += l; V += ½ dist²` (Ocp.forward adds the two stage terms first: it is evaluated too and must agree to 2^-36);
        bwd: Ocp.backward (adjoint sweep, ALM terms from Ocp.pen_grad) on the stored trajectory;
      - L-BFGS: Lbfgs.v (apply_masked / update forced / reset) — NOT teacher-forced;
-     - Gauss-Newton step: TEACHER-FORCED for the inactive components (the j-th step is the q recorded by the j-th progress
-       callback with gn = true); the active components (bound − u) and the inactive set are the model's own;
+     - Gauss-Newton step: COMPUTED by the model (o_gn): index sets J_t / K_t from the model's inactive mask (Ocp.build_J / compl), the
+       Jacobians of the family at the current (x_t, u_t), the cost blocks Q_t = ∇²l + Jcᵀ diag(μ·[ζ ∉ D]) Jc, R_t (diagonal), S_t = 0,
+       Q_N likewise, q_t / r_t / q_N from the shared qr buffer the loop model threads, the fixed components = the active entries
+       of q (bound − u); then Ocp.factor_masked + Ocp.solve_masked (C12's verified Riccati model, Ocp.riccati_step) with the dense solve
+       lsolve instantiated per lqr_factor_cholesky: Eigen's pivoted LDLT (sizes <= 2 operation by operation: ldlt_solve) or partial-pivot
+       LU = Gaussian elimination (Corr_C12.gsolve; gsolve_r for the matrix right-hand side, where Eigen multiplies by reciprocals).
+       NOTHING of the Gauss-Newton block is teacher-forced.  With stage constraints (nc > 0)
+       OCPEvaluator::Qk adds ∇²l and then JcᵀMJc to P, while Ocp.factor_all adds ONE matrix Q_t: a last-bit difference that
+       ill-conditioned runs amplify; there the loop over the stages (factor_code) makes the two additions in the code's order around
+       Ocp.factor_step, and with nc = 0 the step is Ocp.riccati_step verbatim.
      - stop_req from the driver's injection points (stop() inside sweep event #E / callback #C); time_up constant.
    The model's whole trajectory (every progress-callback record, final status, outputs, statistics, event counts) must equal the
    implementation's. *)
 From Coq Require Import Floats List ZArith Bool Arith.
-From Alpaqa Require Import Num NumF Vec Prox SolverStatus SolverKernels Ocp Lbfgs PanocOcp PanocOcpLoop Corr_Run.
+From Alpaqa Require Import Num NumF Vec Prox SolverStatus SolverKernels Ocp Lbfgs PanocOcp PanocOcpLoop Corr_Run PanocOcpE2E.
+From Alpaqa Require Corr_C12.
 Import ListNotations.
 
 Section Family.
@@ -93,17 +102,80 @@ Section Family.
   Definition o_fwd_ocp (u : list T) : list T * T :=
     forward s_f (fun _ _ _ => []) (fun _ => []) s_l s_lN s_c s_cN d Dlb Dub DNlb DNub x0 (stages u) y μ.
 
-  (* OCPEvaluator::backward = Ocp.backward on the stored trajectory *)
+  (* OCPEvaluator::backward = Ocp.backward on the stored trajectory: the C13∘C12 instance PanocOcpE2E.e_bwd / e_cvals applied to the
+     family's functions (nh = 0: the output of a stage is xu itself) *)
   Definition QRt := (list (list T) * list T)%type.
   Definition o_bwd (u sto : list T) : list T * QRt :=
-    let st := map (fun t => let xt := seg (off_x d t) nx sto in let ut := stage t u in
-                            {| bA := s_jacA t xt ut; bB := s_jacB t xt ut; bqr := s_qr t (xt ++ ut); bJc := s_jc t xt;
-                               bc := seg (off_c d t) nc sto; by_ := seg (t * nc) nc y; bμ := seg (t * nc) nc μ |}) (seq 0 NN) in
+    e_bwd s_jacA s_jacB (fun t z _ => s_qr t z) (fun x _ => s_qN x) s_jc s_jcN d Dlb Dub DNlb DNub y μ u sto.
+  Definition o_cvals (sto : list T) : list T := e_cvals d sto.
+
+  (* ---- Gauss-Newton block: J.update, eval_jac_f, lqr.factor_masked, lqr.solve_masked *)
+  (* Eigen LDLT / PartialPivLU solve of the reduced Hessian R̄: lsolve for the vector right-hand side t (ei = R̄LU.solve(ti)), lsolveK for
+     the matrix right-hand side S̄ (gain_Ki = R̄LU.solve(S̄)) — Eigen's triangular solver for matrices multiplies by the RECIPROCAL of the
+     diagonal entries of U where the one for vectors divides; with LDLT (unit triangular factors, D⁻¹ by division) both coincide *)
+  Variables lsolve lsolveK : list (list T) -> list T -> list T.
+  Variable same_solve : bool.                               (* lsolveK = lsolve (Cholesky option) *)
+  Definition three : T := nofZ 3.
+  (* hess_l(t, xu, k) = τ_t (w_k + 3 w4_k xu_k²) *)
+  Definition s_hess (t : nat) (z : list T) (k : nat) : T := tau t * (at_ w k + three * at_ w4 k * at_ z k * at_ z k).
+  Definition s_hessN (x : list T) (k : nat) : T := at_ wN k + three * at_ wN4 k * at_ x k * at_ x k.
+  Definition diagm (n : nat) (f : nat -> T) : list (list T) :=
+    map (fun i => map (fun j => if Nat.eqb i j then f i else n0) (seq 0 n)) (seq 0 n).
+  Definition zerom (r c : nat) : list (list T) := repeat (repeat n0 c) r.
+  (* OCPEvaluator::Qk: work_c(i) = μ_i * (ζ_i < D.lb_i || ζ_i > D.ub_i), ζ = c + μ⁻¹ y *)
+  Definition outside (l u : option T) (z : T) : bool :=
+    (match l with Some b => z <? b | None => false end) || (match u with Some b => b <? z | None => false end).
+  Definition gn_weights (lb ub : list (option T)) (ck yk μk : list T) : list T :=
+    map5 (fun l u ci yi mi => mi * (if outside l u (ci + yi / mi) then n1 else n0)) lb ub ck yk μk.
+  (* eval_add_gn_hess_constr: Jᵀ diag(M) J, entry (i, j) = Σ_k (J_ki M_k) J_kj *)
+  Definition gn_hess (Jc : list (list T)) (M : list T) (n : nat) : list (list T) :=
+    map (fun i => map (fun j => match combine Jc M with
+                                | [] => n0
+                                | (r0, m0) :: rest => fold_left (fun s rm => s + (at_ (fst rm) i * snd rm) * at_ (fst rm) j) rest ((at_ r0 i * m0) * at_ r0 j)
+                                end) (seq 0 n)) (seq 0 n).
+  Definition o_QN (sto : list T) : list (list T) :=
     let xN := seg (off_x d NN) nx sto in
-    let '(g, _, qrs, qN) := backward nx nu nc ncN Dlb Dub DNlb DNub st (s_qN xN) (s_jcN xN) (seg (off_c d NN) ncN sto)
-                                     (seg (NN * nc) ncN y) (seg (NN * nc) ncN μ) in
-    (concat g, (qrs, qN)).
-  Definition o_cvals (sto : list T) : list T := concat (map (fun t => seg (off_c d t) (len_c d t) sto) (seq 0 (S NN))).
+    let DN := diagm nx (s_hessN xN) in
+    if Nat.ltb 0 ncN
+    then madd DN (gn_hess (s_jcN xN) (gn_weights DNlb DNub (seg (off_c d NN) ncN sto) (seg (NN * nc) ncN y) (seg (NN * nc) ncN μ)) nx)
+    else DN.
+  Definition o_gnQ (sto : list T) (t : nat) : list (list T) :=        (* the constraint part JcᵀMJc of Q_t (nc > 0) *)
+    gn_hess (s_jc t (seg (off_x d t) nx sto)) (gn_weights Dlb Dub (seg (off_c d t) nc sto) (seg (t * nc) nc y) (seg (t * nc) nc μ)) nx.
+  (* stage data with sQ = Qc: the cost part ∇²l of Q_t alone (code-order loop) or the whole Q_t (Ocp.riccati_step) *)
+  Definition o_lq_stage (whole : bool) (u sto : list T) (qr : QRt) (mask : list bool) (q0 : list T) (t : nat) : lq_stage T :=
+    let xt := seg (off_x d t) nx sto in let ut := stage t u in let z := xt ++ ut in
+    let J := build_J (fun i => nth (t * nu + i) mask false) nu in
+    let qrt := nth t (fst qr) [] in
+    let Dq := diagm nx (s_hess t z) in
+    {| sA := s_jacA t xt ut; sB := s_jacB t xt ut;
+       sQ := if whole && Nat.ltb 0 nc then madd Dq (o_gnQ sto t) else Dq;
+       sS := zerom nu nx; sR := diagm nu (fun i => s_hess t z (nx + i));
+       sq := firstn nx qrt; sr := skipn nx qrt; sJ := J; sK := compl J nu; sfix := stage t q0 |}.
+  (* factor_masked with the code's order of the two additions in OCPEvaluator::Qk:  P ← ((AᵀPA + S̄ᵀK) + ∇²l) + JcᵀMJc  (None: nc = 0,
+     no second addition), and with the two solves of a stage done by the two solvers.  Each stage is Ocp.factor_step (sQ = ∇²l), taken
+     once per solver: K and P come from the run with lsolveK, e and s from the run with lsolve (P depends on K only, s on e only).
+     With one solver and nc = 0 this IS Ocp.factor_all. *)
+  Fixpoint factor_code (sts : list (lq_stage T * option (list (list T)))) (QN : list (list T)) (qN : list T) : list (gain T) * list (list T) * list T :=
+    match sts with
+    | [] => ([], QN, qN)
+    | (st, G) :: sts' =>
+        let '(gs, P, s) := factor_code sts' QN qN in
+        let oK := factor_step lsolveK nx st P s in
+        let oE := factor_step lsolve nx st P s in
+        ({| gKT := oKT oK; ge := oe oE |} :: gs, match G with Some g => madd (oP oK) g | None => oP oK end, os oE)
+    end.
+  (* the Gauss-Newton step: the fixed (active) components keep the values they have in q0, the free ones get the Riccati step.
+     Cholesky option and nc = 0: Ocp.riccati_step (= factor_masked + solve_masked) verbatim;  otherwise factor_code + Ocp.solve_masked *)
+  Definition o_gn (j : nat) (u sto : list T) (qr : QRt) (mask : list bool) (q0 : list T) : list T :=
+    if same_solve && negb (Nat.ltb 0 nc)
+    then concat (riccati_step lsolve nx (map (o_lq_stage true u sto qr mask q0) (seq 0 NN)) (o_QN sto) (snd qr))
+    else
+      let sts := map (o_lq_stage false u sto qr mask q0) (seq 0 NN) in
+      let Gs := map (fun t => if Nat.ltb 0 nc then Some (o_gnQ sto t) else None) (seq 0 NN) in
+      concat (solve_masked nx sts (fst (fst (factor_code (combine sts Gs) (o_QN sto) (snd qr))))).
+  (* the same step through Ocp.riccati_step with the whole Q_t as one matrix (cross-check: last-bit differences only) *)
+  Definition o_gn_ocp (u sto : list T) (qr : QRt) (mask : list bool) (q0 : list T) : list T :=
+    concat (riccati_step lsolve nx (map (o_lq_stage true u sto qr mask q0) (seq 0 NN)) (o_QN sto) (snd qr)).
 End Family.
 
 Local Open Scope float_scope.
@@ -116,6 +188,54 @@ Definition lbfgs_P (mem : nat) : Lbfgs.params float :=
 Definition lb_state0 (mem n : nat) : Lbfgs.state float :=
   match resize (lbfgs_P mem) n with Some s => s | None => {| st_n := n; st_idx := 0; st_full := false; st_slots := [] |} end.
 
+(* Eigen::LDLT<rmat>{R̄} (lower triangle, diagonal pivoting: largest |diagonal entry| first, ties keep the first) followed by solve():
+   P b, unit-lower solve, D⁻¹ (pseudo-inverse: |d| <= DBL_MIN gives 0), transposed solve, Pᵀ.  Operation by operation for the sizes
+   the family produces (nu <= 2); larger systems fall back to Gaussian elimination. *)
+Definition dbl_min : float := 0x1p-1022.
+Definition dinv (dd v : float) : float := if abs dd <=? dbl_min then 0 else v / dd.
+Definition ldlt_solve (M : list (list float)) (b : list float) : list float :=
+  match M, b with
+  | [], _ => []
+  | [r1], [b1] => [dinv (nth 0 r1 0) b1]
+  | [r1; r2], [b1; b2] =>
+      let a0 := nth 0 r1 0 in let c := nth 0 r2 0 in let d0 := nth 1 r2 0 in
+      let sw := abs a0 <? abs d0 in
+      let a := if sw then d0 else a0 in let dd := if sw then a0 else d0 in
+      let y1 := if sw then b2 else b1 in let y2 := if sw then b1 else b2 in
+      if 0 <? abs a then
+        let l := c / a in
+        let d2 := dd - l * (a * l) in
+        let y2' := y2 - y1 * l in
+        let z1 := dinv a y1 in let z2 := dinv d2 y2' in
+        let x1 := z1 - l * z2 in
+        if sw then [z2; x1] else [x1; z2]
+      else (* the whole diagonal is zero: nothing is factored, D = 0 *)
+        [0; 0]
+  | _, _ => Corr_C12.gsolve M b
+  end.
+(* PartialPivLU::solve with a MATRIX right-hand side: Gaussian elimination with partial pivoting (Corr_C12.gauss) whose back-substitution
+   multiplies by 1/u_ii (Eigen's triangular_solve_matrix) instead of dividing by u_ii (triangular_solve_vector = Corr_C12.gsolve) *)
+Fixpoint gauss_r (fuel : nat) (rows : list (list float)) : list float :=
+  match fuel, rows with
+  | S fuel', r0 :: rows' =>
+      let '(p, others) := Corr_C12.pick_pivot r0 rows' [] in
+      match p with
+      | a :: pr =>
+          let elim := map (fun r => match r with
+                                    | ai :: ri => let m := ai / a in map2 (fun x y => x - m * y) ri pr
+                                    | [] => [] end) others in
+          let xs := gauss_r fuel' elim in
+          let n := length xs in
+          let bp := nth n pr 0 in
+          let s := fold_left (fun acc xy => acc + fst xy * snd xy) (combine (firstn n pr) xs) 0 in
+          ((bp - s) * (1 / a)) :: xs
+      | [] => []
+      end
+  | _, _ => []
+  end.
+Definition gsolve_r (M : list (list float)) (b : list float) : list float :=
+  gauss_r (length M) (map2 (fun r bi => r ++ [bi]) M b).
+
 (* ---------------------------------------------------------------- cases *)
 Record xrec := mkX { x_k : nat; x_status : status; x_xu : list float; x_xhu : list float; x_p : list float; x_nsqp : float;
                      x_phi : float; x_psi : float; x_grad : list float; x_psih : float; x_q : list float; x_gn : bool; x_nJ : Z;
@@ -125,7 +245,7 @@ Inductive ocase :=
 | OCase (d : dims) (A B : list (list float)) (fa fb w ref w4 wN refN wN4 : list float)
         (Cx : list (list float)) (cq : list float) (CN : list (list float)) (cNq : list float)
         (Dlb Dub DNlb DNub Ulb Uub x0 u0 y0 mu : list float)
-        (prm : PanocOcpLoop.params (T:=float)) (mem : nat) (stop_eval stop_cb : Z) (time0 : bool) (fuel lsfuel : nat)
+        (prm : PanocOcpLoop.params (T:=float)) (chol : bool) (mem : nat) (stop_eval stop_cb : Z) (time0 : bool) (fuel lsfuel : nat)
         (* what the implementation did *)
         (threw : nat)           (* 0: returned; 1: std::invalid_argument; 2: std::logic_error *)
         (status : status) (iterations : nat) (eps : float) (u_out y_out errz : list float)
@@ -139,16 +259,10 @@ Definition obs (l : list float) := map lb_of_float l.
 Definition oubs (l : list float) := map ub_of_float l.
 Definition tileN {A} (n : nat) (l : list A) : list A := concat (repeat l n).
 
-(* the recorded Gauss-Newton steps, in order *)
-Definition gn_steps (recs : list xrec) : list (list float) :=
-  map x_q (filter (fun r => x_gn r && match x_status r with StBusy => true | _ => false end) recs).
-Definition gn_forced (gq : list (list float)) (j : nat) (u sto : list float) (qr : QRt (T:=float)) (mask : list bool) (q0 : list float) : list float :=
-  map3 (fun (m : bool) a b => if m then b else a) mask q0 (nth j gq []).
-
 Definition Xf := list float.
 Definition run_case (cs : ocase) : result (T:=float) Xf :=
   match cs with
-  | OCase d A B fa fb w ref w4 wN refN wN4 Cx cq CN cNq Dlb Dub DNlb DNub Ulb Uub x0 u0 y0 mu prm mem se sc time0 fuel lsfuel
+  | OCase d A B fa fb w ref w4 wN refN wN4 Cx cq CN cNq Dlb Dub DNlb DNub Ulb Uub x0 u0 y0 mu prm chol mem se sc time0 fuel lsfuel
           _ _ _ _ _ _ _ _ _ _ _ recs =>
       let n := (dN d * dnu d)%nat in
       let P9 := lbfgs_P mem in
@@ -158,7 +272,8 @@ Definition run_case (cs : ocase) : result (T:=float) Xf :=
         (o_sim d A B fa fb w ref w4 wN refN wN4 Cx cq CN cNq (obs Dlb) (oubs Dub) (obs DNlb) (oubs DNub) x0 y0 mu)
         (o_bwd d A B fa fb w ref w4 wN refN wN4 Cx cq CN cNq (obs Dlb) (oubs Dub) (obs DNlb) (oubs DNub) y0 mu)
         (o_cvals d)
-        (gn_forced (gn_steps recs))
+        (o_gn d A B fa fb w w4 wN wN4 Cx cq CN cNq (obs Dlb) (oubs Dub) (obs DNlb) (oubs DNub) y0 mu
+              (if chol then ldlt_solve else Corr_C12.gsolve) (if chol then ldlt_solve else gsolve_r) chol)
         (fun ds q γ J => match apply_masked fpow0 P9 ds q γ J with
                          | (MRet b, q', ds') => (b, q', ds')
                          | (MThrow, q', ds') => (false, q', ds')
@@ -179,12 +294,20 @@ Definition rec_of (r : cbrec (T:=float) Xf) : xrec :=
   mkX (r_k r) (r_status r) (ix i) (ixh i) (ip i) (ipp i) (it_fbe i) (ipsi i) (igrad i) (ipsih i) (r_q r) (r_gn r) (r_nJ r)
       (iL i) (igam i) (r_tau r) (r_eps r).
 
+(* ε of a NaN iterate: std::fmax / std::fmin (the code's projected step) drop a NaN operand where the model's cmax / cmin propagate it
+   (PanocOcpLoop.v, conventions), so the implementation may report inf where the model reports NaN: non-finite ε values are not told apart *)
+Definition feq_eps (a b : float) : bool := feq a b || (negb (f_finite a) && negb (f_finite b)).
 Definition busy (s : status) : bool := match s with StBusy => true | _ => false end.
 Definition rec_agree (a b : xrec) : bool :=
+  (* the record of an exit with NotFinite holds a NaN iterate: its projected step goes through std::fmax / std::fmin, which drop NaN
+     operands (see feq_eps): only the discrete fields and the inputs are compared *)
+  if status_eqb (x_status a) StNotFinite && status_eqb (x_status b) StNotFinite
+  then Nat.eqb (x_k a) (x_k b) && vfeq (x_xu a) (x_xu b) && Bool.eqb (x_gn a) (x_gn b) && Z.eqb (x_nJ a) (x_nJ b) && feq (x_gamma a) (x_gamma b) && feq (x_L a) (x_L b)
+  else
   Nat.eqb (x_k a) (x_k b) && status_eqb (x_status a) (x_status b) && vfeq (x_xu a) (x_xu b) && vfeq (x_xhu a) (x_xhu b) &&
   vfeq (x_p a) (x_p b) && feq (x_nsqp a) (x_nsqp b) && feq (x_phi a) (x_phi b) && feq (x_psi a) (x_psi b) &&
   vfeq (x_grad a) (x_grad b) && feq (x_psih a) (x_psih b) && Bool.eqb (x_gn a) (x_gn b) && Z.eqb (x_nJ a) (x_nJ b) &&
-  feq (x_L a) (x_L b) && feq (x_gamma a) (x_gamma b) && feq (x_eps a) (x_eps b) &&
+  feq (x_L a) (x_L b) && feq (x_gamma a) (x_gamma b) && feq_eps (x_eps a) (x_eps b) &&
   (* τ is reported as NaN with the final record; q is uninitialised memory until the first direction was computed *)
   (if busy (x_status a) then feq (x_tau a) (x_tau b) && (match x_q a with [] => true | _ => vfeq (x_q a) (x_q b) end) else true).
 
@@ -201,7 +324,7 @@ Definition errz_close (y0 mu e_model e_impl y_model y_impl : list float) : bool 
 
 Definition chkocp (cs : ocase) : bool :=
   match cs with
-  | OCase d A B fa fb w ref w4 wN refN wN4 Cx cq CN cNq Dlb Dub DNlb DNub Ulb Uub x0 u0 y0 mu prm mem se sc time0 fuel lsfuel
+  | OCase d A B fa fb w ref w4 wN refN wN4 Cx cq CN cNq Dlb Dub DNlb DNub Ulb Uub x0 u0 y0 mu prm chol mem se sc time0 fuel lsfuel
           threw status iterations eps u_out y_out errz ist fst_ events cbs recs =>
       (* Ocp.forward (C12's model) agrees with the instance's forward pass at the initial inputs *)
       let f1 := o_fwd d A B fa fb w ref w4 wN refN wN4 Cx cq CN cNq (obs Dlb) (oubs Dub) (obs DNlb) (oubs DNub) x0 y0 mu u0 in
@@ -210,7 +333,7 @@ Definition chkocp (cs : ocase) : bool :=
       match run_case cs with
       | Done o =>
           Nat.eqb threw 0 &&
-          status_eqb (out_status o) status && Nat.eqb (out_iterations o) iterations && feq (out_eps o) eps &&
+          status_eqb (out_status o) status && Nat.eqb (out_iterations o) iterations && feq_eps (out_eps o) eps &&
           vfeq (out_u o) u_out &&
           (if overwrites (out_status o) (o_always prm)
            then errz_close y0 mu (out_errz o) errz (out_y o) y_out
